@@ -353,3 +353,33 @@ Definition mon_reader (inp obs : list Z) : bool :=
   | maxmsg :: _ => forallb (msg_bounded maxmsg) (dec_msgs (length obs) obs)
   | [] => false
   end.
+
+(* ---- the writer's queue (peerwriter.Run: queueMessage, cancelQueuedPieceMessages, cancelRequest) ----
+   kind 1105: the first message is being written (the connection is blocked) while the others arrive *)
+Definition is_piece (m : msg) : bool := match m with PieceM _ _ _ => true | _ => false end.
+Fixpoint remove_first_piece (i b l : Z) (q : list msg) : list msg :=
+  match q with
+  | [] => []
+  | PieceM i' b' d :: r => if (i' =? i) && (b' =? b) && (zlen d =? l) then r else PieceM i' b' d :: remove_first_piece i b l r
+  | m :: r => m :: remove_first_piece i b l r
+  end.
+Definition count_pieces (q : list msg) : Z := zlen (filter is_piece q).
+(* one operation on the queue; Cancel stands for the peer cancelling its request (CancelRequest) *)
+Definition wq_op (maxq : Z) (fast : bool) (q : list msg) (m : msg) : list msg :=
+  match m with
+  | Choke => filter (fun x => negb (is_piece x)) q ++ [Choke]
+  | Cancel i b l => remove_first_piece i b l q
+  | PieceM i b d => if maxq <=? count_pieces q then (if fast then q ++ [Reject i b (zlen d)] else q) else q ++ [m]
+  | _ => q ++ [m]
+  end.
+Definition run_wqueue (inp : list Z) : list Z :=
+  match inp with
+  | maxq :: fast :: r =>
+      match dec_msgs (length r) r with
+      | m0 :: rest =>
+          let ms := served_filter [] (m0 :: fold_left (wq_op maxq (z2b fast)) rest []) in
+          flat_map enc_go ms ++ [-1; fold_right (fun m a => uploaded_of m + a) 0 ms]
+      | [] => [-779]
+      end
+  | _ => [-779]
+  end.
